@@ -1601,9 +1601,10 @@ func (e *Entry) dup() *Entry {
 		}
 	}
 
+	// merge appends to the slices in Extra, so a copy must not share them.
 	ne.Extra = make(map[string][]interface{})
 	for k, v := range e.Extra {
-		ne.Extra[k] = v
+		ne.Extra[k] = append([]interface{}{}, v...)
 	}
 
 	return &ne
